@@ -90,14 +90,19 @@ def observe(c, cfg: dict) -> dict:
     return o
 
 
-def replay_ops(cfg: dict, ops: list[dict], gap: float = 0.0, reuse=None) -> dict:
-    """Run ops on a real cache; return the trace record."""
+def replay_ops(cfg: dict, ops: list[dict], gap: float = 0.0, reuse=None, second=None) -> dict:
+    """Run ops on a real cache; return the trace record.  second: another HANDLE of the same shared cache (a pickled copy,
+    as a worker process holds one): every other operation goes through it, everything is observed through the first."""
     tmpdir = tempfile.mkdtemp(prefix="pfverif_dc_") if cfg["kind"] == "disk" else None
     ev = []
     try:
         c = reuse if reuse is not None else make_cache(cfg, tmpdir)
         cur = dict(cfg)
-        for o in ops:
+        first = None
+        for t_, o in enumerate(ops):
+            if second is not None:           # alternate between the two handles
+                first = first or c
+                c = second if t_ % 2 == 1 else first
             e = {"op": o["op"], "k": o.get("k", ""), "v": o.get("v", 0), "d": o.get("d", 0),
                  "max": o.get("max", 0), "lsize": o.get("lsize", 0), "exc": ""}
             try:
@@ -123,7 +128,7 @@ def replay_ops(cfg: dict, ops: list[dict], gap: float = 0.0, reuse=None) -> dict
                 else:
                     raise ValueError(o["op"])
                 e["res"] = 0 if r is None else r
-                e.update(observe(c, cur))
+                e.update(observe(first if second is not None else c, cur))
             except Exception as ex:  # noqa: BLE001  a raise is an event, never a gap
                 e["res"] = -1
                 e["exc"] = type(ex).__name__
@@ -159,6 +164,9 @@ def _shared_worker(args):
         return {"machinery": "clear() left entries behind", "cfg": cfg}
     if cfg["kind"] == "lru" and len(c._cache_queue) != 0:  # noqa: SLF001  reuse hygiene only
         return {"machinery": "clear() left queue entries", "cfg": cfg}
+    if cfg.get("handles") == 2:
+        import pickle
+        return replay_ops(cfg, ops, reuse=c, second=pickle.loads(pickle.dumps(c)))  # noqa: S301
     return replay_ops(cfg, ops, reuse=c)
 
 
@@ -327,6 +335,8 @@ def run(ctx: Ctx) -> None:
             n = 150 if quick else 1500
             sub = rng.sample(seqs, min(n, len(seqs)))
             traces += run_many([(dict(cfg, shared=True), s) for s in sub], gap, shared=True)
+            # the same shared cache used through TWO handles alternately (state kept on a handle is not shared)
+            traces += run_many([(dict(cfg, shared=True, handles=2), s) for s in sub[:: (3 if quick else 2)]], gap, shared=True)
         validate(ctx, traces, f"{cfg['kind']}_{cfg['max']}_{cfg['lsize']}_{cfg['aw']}{cfg['dw']}")
         all_traces += traces[:50]
         for t in traces:
